@@ -16,9 +16,11 @@ from . import gen_all, lib
 TRUSTED = [
     "Coq 8.16.1 kernel; vm_compute only in the generated case files (model evaluation), not in proofs",
     "hand models models/Script.v (get_last_formula, get_strict_formula) and models/TrackSolver.v "
-    "(IncrementalTrackingSolver + is_sat/is_valid/is_unsat + clear_pending_pop), tied to the code by the "
+    "(IncrementalTrackingSolver + is_sat/is_valid/is_unsat + clear_pending_pop, incl. the calls in which the native "
+    "solver answers unknown and the call raises), tied to the code by the "
     "correspondence of this run (counts below): every legal command list up to the enumeration bound, "
-    "every one-step illegal extension (scripts), random lists up to length 60",
+    "every one-step illegal extension (scripts), random lists up to length 60; the model is per solver instance "
+    "and is run for each of the 2-3 instances that are alive together in the interleaved families",
     "spec models/AssertStack.v (SMT-LIB 2.6 assertion stack, 4.1.4 / push, pop, reset-assertions in 4.2.2; "
     "objectives and assert-soft scoped like assertions, as in the OMT extensions)",
     "the Script model keeps a MaxSMTGoal object only in `goals` and its position in the dict (aliasing "
@@ -42,7 +44,17 @@ RULE = ("DFS enumeration of ALL legal command lists up to the tier's length over
         "one-step extension of a legal script, plus random legal lists (length 5..60, push-heavy / pop-heavy "
         "/ soft-heavy profiles, minmax/maxmin included); thorough adds length 5 and length 6 over 8-symbol "
         "sub-alphabets; implementation + oracle run on every list, the Coq model on every list up to length 4, every "
-        "random list and (thorough) a seeded 15% sample of the longer enumerated ones; distinct = distinct command lists")
+        "random list and (thorough) a seeded 15% sample of the longer enumerated ones. Solver instances alive TOGETHER "
+        "(state shared between objects): every interleaving up to length 5 (6 thorough) of two instances over "
+        "{add, push 1, pop 1, is_sat} each with a legal history per instance (instances created at first use), "
+        "600 (8000) random interleavings of 2-3 independent random legal histories (all created up front / lazily / "
+        "one created while the others are mid-history; every third run reads `assertions` of every instance after "
+        "every step), and a new instance after / next to a dirty one (open levels, pending pop): each instance is "
+        "compared with its own reference stack and its own run of the Coq model, a new instance with t_init, and no "
+        "step may change another instance. Unknown answers: every legal history up to the bound over a 9-symbol "
+        "alphabet with is_sat/is_valid/solve calls that raise SolverReturnedUnknownResultError. "
+        "The run stops generating after 50 violations/anomalies; a watchdog (RSS 4 GB, quick: 15 min) turns a blow-up "
+        "into a reported violation; distinct = distinct command lists / schedules")
 
 # ---------------------------------------------------------------------------------------
 # the independent oracle: SMT-LIB assertion stack
@@ -150,7 +162,21 @@ SOLVER_ALPHABET = [
     ("reset",), ("solve", None), ("solve", "lit"), ("solve", "other"),
     ("is_sat", 0), ("is_valid", 1), ("is_unsat", 0), ("obs",),
 ]
-SOLVER_EXTRA = [("solve", "other2"), ("is_sat", 1), ("is_valid", 0), ("is_unsat", 1), ("push", 3), ("pop", 3)]
+SOLVER_EXTRA = [("solve", "other2"), ("is_sat", 1), ("is_valid", 0), ("is_unsat", 1), ("push", 3), ("pop", 3),
+                ("solve_unk", None), ("solve_unk", "other"), ("is_sat_unk", 0), ("is_valid_unk", 1), ("is_unsat_unk", 1)]
+# second exhaustive family: the native solver answers "unknown" (the call raises) in the middle of a history
+UNKNOWN_ALPHABET = [("add", 0), ("push", 1), ("pop", 1), ("reset",), ("is_sat", 1), ("obs",),
+                    ("is_sat_unk", 0), ("is_valid_unk", 1), ("solve_unk", "other")]
+# several solver instances alive at once: per-instance alphabet of the exhaustive interleavings
+MULTI_ALPHABET = [("add", 0), ("push", 1), ("pop", 1), ("is_sat", 1)]
+# a new instance after (and next to) a dirty one: levels left open, pending pop
+DIRTY_HISTORIES = [
+    [("push", 2), ("add", 0), ("add", 1), ("is_sat", 0)],
+    [("add", 0), ("push", 1), ("add", 1), ("solve", "other")],
+    [("add", 1), ("push", 3)],
+    [("push", 1), ("add", 0), ("is_valid_unk", 1)],
+]
+FRESH_HISTORY = [("add", 1), ("push", 1), ("add", 0), ("obs",), ("pop", 1), ("is_unsat", 0)]
 
 KIND_COQ = {"min": "KMin", "max": "KMax", "minmax": "KMinMax", "maxmin": "KMaxMin"}
 ID_NAME = {1: "x", 2: "y"}
@@ -262,32 +288,62 @@ class Impl(object):
         except Exception as ex:
             return ("err", self._exc(ex))
 
-    # -- solver -----------------------------------------------------------------------
-    def run_solver(self, tokens, final_obs=True):
-        """-> (trace, problems). trace: per step ('ok', stack ids, points, pending) | ('err', name);
-        problems: list of strings (property-level oracle)."""
+    # -- solver(s) --------------------------------------------------------------------
+    def run_multi(self, schedule, observe_all=False):
+        """Several BruteForceSolver instances alive at once.  schedule: list of (j, token); solver j is created
+        at its first entry (token ('new',) only creates it).  Every instance has its own reference stack; after
+        the schedule `assertions` of every instance is read (as an explicit ('obs',) step of that instance).
+        -> (cmds, traces, problems, anomalies):
+           cmds[j]   tokens executed on solver j (incl. the inserted reads), up to its first exception
+           traces[j] per executed token ('ok', stack ids, points, pending) | ('err', name)
+           problems  property-level: wrong `assertions`, wrong answer, exception on a legal history
+           anomalies raw-state: a new instance not in the initial state, an instance changed by a step on
+                     another one, a state larger than any history of this length creates"""
         from pysmt.logics import QF_BOOL
-        s = self.BruteForceSolver(self.env, QF_BOOL)
-        ref = RefStack()
-        trace, problems = [], []
+        from pysmt.exceptions import SolverReturnedUnknownResultError
+        solvers, refs, dead = {}, {}, set()
+        cmds, traces, problems, anomalies = {}, {}, [], []
         a, b = self.form[0], self.form[1]
+        cap = 3 * len(schedule) + 8
+        fid = self.fid
+
+        def ids(fs):
+            return [fid.get(x, str(x)) for x in fs]
 
         def sat(fs):
             return brute_sat(self.mgr, [a, b], fs)
 
-        def observe(where):
+        def raw(s, who):
+            st, bp = s._assertion_stack, s._backtrack_points
+            if len(st) > cap or len(bp) > cap:
+                anomalies.append("%s: raw state has %d assertions / %d backtrack points, more than any history of "
+                                 "%d steps creates (state shared between instances?)" % (who, len(st), len(bp), len(schedule)))
+            return ([fid.get(x, 97) for x in st[:cap]], list(bp[:cap]), bool(s.pending_pop))
+
+        def create(j):
+            s = solvers[j] = self.BruteForceSolver(self.env, QF_BOOL)
+            refs[j], cmds[j], traces[j] = RefStack(), [], []
+            r = raw(s, "new solver %d" % j)
+            if r != ([], [], False):
+                anomalies.append("a NEW solver instance (%d) starts with _assertion_stack=%s _backtrack_points=%s "
+                                 "pending_pop=%s instead of [], [], False" % (j, r[0], r[1][:12], r[2]))
+
+        def observe(j, where):
+            s, ref = solvers[j], refs[j]
             got = list(s.assertions)
             if got != ref.assertions():
-                problems.append("%s: solver.assertions = %s, live assertions = %s"
-                                % (where, [self.fid.get(x, str(x)) for x in got],
-                                   [self.fid.get(x, str(x)) for x in ref.assertions()]))
+                problems.append("%s: solver %d: assertions = %s, live assertions = %s"
+                                % (where, j, ids(got), ids(ref.assertions())))
             if s.native.live() != ref.assertions():
-                problems.append("%s: the native solver holds %s, live assertions = %s"
-                                % (where, [self.fid.get(x, str(x)) for x in s.native.live()],
-                                   [self.fid.get(x, str(x)) for x in ref.assertions()]))
-        for i, t in enumerate(tokens):
-            k = t[0]
-            where = "step %d %s" % (i, list(t))
+                problems.append("%s: solver %d: the native solver holds %s, live assertions = %s"
+                                % (where, j, ids(s.native.live()), ids(ref.assertions())))
+
+        def step(j, t, g):
+            if j in dead:
+                return
+            s, ref, k = solvers[j], refs[j], t[0]
+            where = "step %d (solver %d: %s)" % (g, j, " ".join(str(x) for x in t))
+            cmds[j].append(t)
             try:
                 if k == "add":
                     s.add_assertion(self.form[t[1]])
@@ -305,8 +361,7 @@ class Impl(object):
                     ass = self.assume[t[1]]
                     r = s.solve(ass) if ass is not None else s.solve()
                     if r != sat(ref.assertions() + (ass or [])):
-                        problems.append("%s: solve answered %s on live assertions %s"
-                                        % (where, r, [self.fid[x] for x in ref.assertions()]))
+                        problems.append("%s: solve answered %s on live assertions %s" % (where, r, ids(ref.assertions())))
                 elif k in ("is_sat", "is_valid", "is_unsat"):
                     f = self.form[t[1]]
                     r = getattr(s, k)(f)
@@ -314,22 +369,53 @@ class Impl(object):
                     exp = {"is_sat": sat(base + [f]), "is_unsat": not sat(base + [f]),
                            "is_valid": not sat(base + [self.mgr.Not(f)])}[k]
                     if r != exp:
-                        problems.append("%s: %s answered %s on live assertions %s"
-                                        % (where, k, r, [self.fid[x] for x in base]))
+                        problems.append("%s: %s answered %s on live assertions %s" % (where, k, r, ids(base)))
+                elif k in ("solve_unk", "is_sat_unk", "is_valid_unk", "is_unsat_unk"):
+                    s.answer_unknown = True
+                    try:
+                        if k == "solve_unk":
+                            ass = self.assume[t[1]]
+                            s.solve(ass) if ass is not None else s.solve()
+                        else:
+                            getattr(s, k[:-4])(self.form[t[1]])
+                        problems.append("%s: harness error: the call did not raise" % where)
+                    except SolverReturnedUnknownResultError:
+                        pass
+                    finally:
+                        s.answer_unknown = False
                 elif k == "obs":
-                    observe(where)
+                    observe(j, where)
             except Exception as ex:
-                trace.append(("err", self._exc(ex)))
+                traces[j].append(("err", self._exc(ex)))
                 problems.append("%s: raised %s: %s" % (where, type(ex).__name__, ex))
-                return trace, problems
-            trace.append(("ok", [self.fid.get(x, 97) for x in s._assertion_stack], list(s._backtrack_points),
-                          bool(s.pending_pop)))
-        if final_obs:
-            try:
-                observe("after the last step")
-            except Exception as ex:
-                problems.append("reading assertions after the last step raised %s: %s" % (type(ex).__name__, ex))
-        return trace, problems
+                dead.add(j)
+                return
+            traces[j].append(("ok",) + raw(s, where))
+
+        for g, (j, t) in enumerate(schedule):
+            if j not in solvers:
+                create(j)
+            if t[0] == "new":
+                continue
+            others = [(i, (list(solvers[i]._assertion_stack), list(solvers[i]._backtrack_points[:cap + 1]),
+                           solvers[i].pending_pop)) for i in solvers if i != j] if len(solvers) > 1 else []
+            step(j, t, g)
+            for i, before in others:
+                now = (list(solvers[i]._assertion_stack), list(solvers[i]._backtrack_points[:cap + 1]), solvers[i].pending_pop)
+                if now != before:
+                    anomalies.append("step %d on solver %d (%s) changed the state of solver %d: _backtrack_points %s -> %s"
+                                     % (g, j, " ".join(str(x) for x in t), i, before[1][:12], now[1][:12]))
+            if observe_all:
+                for i in sorted(solvers):
+                    step(i, ("obs",), g)
+        for i in sorted(solvers):
+            step(i, ("obs",), len(schedule))
+        return cmds, traces, problems, anomalies
+
+    def run_solver(self, tokens):
+        """One solver, one history -> (cmds, trace, problems, anomalies)."""
+        cmds, traces, problems, anomalies = self.run_multi([(0, t) for t in tokens] or [(0, ("new",))])
+        return cmds[0], traces[0], problems, anomalies
 
 
 _SAT_CACHE = {}
@@ -365,6 +451,7 @@ class NativeStack(object):
 
 def make_solver_class():
     from pysmt.decorators import clear_pending_pop
+    from pysmt.exceptions import SolverReturnedUnknownResultError
     from pysmt.logics import QF_BOOL
     from pysmt.solvers.options import SolverOptions
     from pysmt.solvers.solver import IncrementalTrackingSolver
@@ -382,6 +469,7 @@ def make_solver_class():
             IncrementalTrackingSolver.__init__(self, environment=environment, logic=logic, **options)
             self.mgr = environment.formula_manager
             self.native = NativeStack()
+            self.answer_unknown = False      # set by the harness: the next _solve answers "unknown"
             self.options(self)
 
         @clear_pending_pop
@@ -407,6 +495,8 @@ def make_solver_class():
                     self.push()
                     self.add_assertion(self.mgr.And(other))
                     self.pending_pop = True
+            if self.answer_unknown:
+                raise SolverReturnedUnknownResultError
             syms = set()
             for f in self.native.live() + lits:
                 syms |= set(f.get_free_variables())
@@ -500,6 +590,85 @@ def random_list(rnd, alphabet, extra, maxlen, allow_illegal):
     return toks
 
 
+def enumerate_multi(alphabet, k, maxlen):
+    """All schedules [(j, token)] of length 1..maxlen over k solver instances such that the history of
+    every instance is legal (instances are created at their first command)."""
+    out = []
+
+    def rec(prefix, depth):
+        for j in range(k):
+            if j > 0 and not any(x[0] == j - 1 for x in prefix):
+                continue            # instances are interchangeable: number them in order of first use
+            for t in alphabet:
+                d = depth[j]
+                if t[0] == "push":
+                    d += t[1]
+                elif t[0] == "pop":
+                    if t[1] > d:
+                        continue
+                    d -= t[1]
+                elif t[0] == "reset":
+                    d = 0
+                cur = prefix + [(j, t)]
+                out.append(cur)
+                if len(cur) < maxlen:
+                    rec(cur, depth[:j] + [d] + depth[j + 1:])
+    rec([], [0] * k)
+    return out
+
+
+def random_multi(rnd):
+    """2-3 instances, independent random legal histories of different depths, random interleaving; sometimes all
+    created up front, sometimes one created while the others are in the middle of their histories."""
+    k = rnd.choice([2, 2, 3])
+    hists = [random_list(rnd, SOLVER_ALPHABET, SOLVER_EXTRA, rnd.choice([6, 12, 20]), False) for _ in range(k)]
+    pos, sched = [0] * k, []
+    mode = rnd.choice(["upfront", "lazy", "late"])
+    if mode == "upfront":
+        sched = [(j, ("new",)) for j in range(k)]
+    live = list(range(k if mode != "late" else k - 1))
+    total = sum(len(h) for h in hists)
+    while any(pos[j] < len(hists[j]) for j in range(k)):
+        if mode == "late" and (k - 1) not in live and len(sched) >= total // 3:
+            live.append(k - 1)
+            sched.append((k - 1, ("new",)))
+        cand = [j for j in live if pos[j] < len(hists[j])]
+        if not cand:
+            live.append(k - 1)
+            sched.append((k - 1, ("new",)))
+            continue
+        j = rnd.choice(cand)
+        burst = rnd.choice([1, 1, 2, 4])
+        for _ in range(burst):
+            if pos[j] < len(hists[j]):
+                sched.append((j, hists[j][pos[j]]))
+                pos[j] += 1
+    return sched
+
+
+def dirty_fresh_schedules():
+    """A new instance B created after / next to an instance A that is left dirty (open levels, pending pop)."""
+    out = []
+    for d in DIRTY_HISTORIES:
+        base = [(0, t) for t in d]
+        out.append(base + [(1, ("new",))])
+        out.append(base + [(1, t) for t in FRESH_HISTORY])
+        mixed = list(base)
+        cont = [("obs",), ("add", 1), ("push", 1), ("is_sat", 0)]
+        for i, t in enumerate(FRESH_HISTORY):
+            mixed.append((1, t))
+            if i < len(cont):
+                mixed.append((0, cont[i]))
+        out.append(mixed)
+        out.append(base + [(1, ("new",)), (2, ("new",)), (2, ("push", 2)), (1, ("add", 0)), (1, ("push", 1)),
+                           (2, ("pop", 1)), (1, ("add", 1)), (2, ("add", 1)), (1, ("pop", 1))])
+    return out
+
+
+def sched_str(sched):
+    return " ; ".join("%d:%s" % (j, " ".join(str(x) for x in t)) for j, t in sched)
+
+
 # ---------------------------------------------------------------------------------------
 # Gallina literals
 # ---------------------------------------------------------------------------------------
@@ -561,6 +730,14 @@ def coq_solver_cmd(t):
         return "SIsValid %d" % t[1]
     if k == "is_unsat":
         return "SIsUnsat %d" % t[1]
+    if k == "solve_unk":
+        return {None: "SSolveUnk None", "other": "SSolveUnk (Some 5)"}[t[1]]
+    if k == "is_sat_unk":
+        return "SIsSatUnk %d" % t[1]
+    if k == "is_valid_unk":
+        return "SIsValidUnk %d" % t[1]
+    if k == "is_unsat_unk":
+        return "SIsUnsatUnk %d" % t[1]
     return "SObserve"
 
 
@@ -675,8 +852,8 @@ def check_script(chk, tokens, last, strict, seen_keys):
     return n
 
 
-def solver_repro(tokens):
-    return "from harness.c16 import Impl; I = Impl(); print(I.run_solver(%r))" % (tokens,)
+def solver_repro(sched):
+    return "from harness.c16 import Impl; I = Impl(); print(I.run_multi(%r)[2:])  # [(solver instance, command)]" % (sched,)
 
 
 # ---------------------------------------------------------------------------------------
@@ -728,6 +905,7 @@ def line_coverage(I, lists, slists):
 
 def run(tier):
     chk = lib.Check("C16", tier)
+    chk.start_watchdog()            # RSS > 4 GB or (quick) wall > 15 min: reported as a VIOLATION, exit 1
     rnd = random.Random(chk.seed)
     gen_all.regen_all()
     ok = chk.prove()
@@ -739,10 +917,12 @@ def run(tier):
     seen = set()
     corpus = json.load(open(os.path.join(os.path.dirname(os.path.abspath(__file__)), "corpus", "c16.json")))
     for ent in corpus:
+        if ent.get("target") == "solver":
+            continue                    # run with the solver families below
         toks = [tuple(t) for t in ent["tokens"]]
         check_script(chk, toks, I.last_formula(toks), I.strict_formula(toks), seen)
         chk.count(("corpus", ent["name"]))
-    chk.cov["corpus"] = {"entries": len(corpus), "failing": len(seen)}
+    chk.cov["corpus"] = {"entries": len(corpus), "failing_scripts": len(seen)}
 
     maxlen = 4 if tier == "quick" else 5
     nrand = 1500 if tier == "quick" else 20000
@@ -762,6 +942,9 @@ def run(tier):
     rows, sel = [], []
     nlegal = 0
     for idx, toks in enumerate(lists):
+        if chk.enough():
+            break
+        chk.last_input = {"family": "script", "commands": toks}
         last, strict = I.last_formula(toks), I.strict_formula(toks)
         if len(toks) <= 4 or idx >= nenum or rsel.random() < frac:
             sel.append(toks)
@@ -777,7 +960,57 @@ def run(tier):
     meta = dict((p, ("script", sel[i * 500:(i + 1) * 500])) for i, p in enumerate(files))
     chk.note("scripts: %d command lists (%d enumerated, %d legal)" % (len(lists), nenum, nlegal))
 
-    # ---------------- solver ----------------------------------------------------------
+    # ---------------- solver(s) -------------------------------------------------------
+    srows, ssel, sseen, anomalies = [], [], set(), []
+    counts = {"corpus": 0, "single": 0, "unknown_family": 0, "multi_enumerated": 0, "multi_random": 0, "dirty_fresh": 0}
+
+    def do_schedule(sched, to_coq, family, observe_all=False):
+        chk.last_input = {"family": family, "schedule": sched}
+        cmds, traces, problems, anom = I.run_multi(sched, observe_all)
+        chk.count((family, tuple(sched), observe_all))
+        counts[family] += 1
+        single = all(x[0] == 0 for x in sched)
+        if problems and len(sseen) < chk.max_violations:
+            key = ("solver:%s" % tok_str([t for _, t in sched])) if single else ("solvers:%s" % sched_str(sched))
+            if key not in sseen:
+                sseen.add(key)
+                chk.violation({"kind": "history", "target": "solver", "history": [[jj, list(t)] for jj, t in sched],
+                               "observe_all": observe_all, "what": problems[0], "all_problems": problems[:5],
+                               "raw_state_anomalies": anom[:3],
+                               "oracle": "one RefStack (SMT-LIB assertion stack) per solver instance + truth table",
+                               "repro": solver_repro(sched)}, key=key)
+        if anom and len(anomalies) < 4 * chk.max_violations:
+            anomalies.append({"what": anom[0], "schedule": sched_str(sched)})
+        if to_coq:
+            for jj in sorted(cmds):
+                ssel.append((sched, jj))
+                srows.append("([%s], %s)" % ("; ".join(coq_solver_cmd(t) for t in cmds[jj]), coq_trace(traces[jj])))
+
+    def stop():
+        return chk.enough(len(anomalies))
+
+    # (a) a new instance after / next to a dirty one; (b) all interleavings of 2 instances up to length 5 (6 thorough)
+    # over a 4-symbol alphabet per instance; (c) random interleavings of 2-3 independent legal histories
+    for ent in corpus:
+        if ent.get("target") == "solver":
+            do_schedule([(int(x[0]), tuple(x[1])) for x in ent["schedule"]], True, "corpus")
+    for sched in dirty_fresh_schedules():
+        do_schedule(sched, True, "dirty_fresh")
+    multi = enumerate_multi(MULTI_ALPHABET, 2, 5 if tier == "quick" else 6)
+    multi.sort(key=len)
+    mfrac = 0.25 if tier == "quick" else 0.5
+    for sched in multi:
+        if stop():
+            break
+        do_schedule(sched, len(sched) <= 4 or rsel.random() < mfrac, "multi_enumerated")
+    for n in range(600 if tier == "quick" else 8000):
+        if stop():
+            break
+        do_schedule(random_multi(rnd), True, "multi_random", observe_all=(n % 3 == 0))
+    chk.note("solver instances alive together: %d schedules, %d violations, %d raw-state anomalies"
+             % (counts["dirty_fresh"] + counts["multi_enumerated"] + counts["multi_random"], len(chk.violations), len(anomalies)))
+
+    # (d) one instance: every legal history up to the bound, the unknown-answer family, random histories
     slists = enumerate_lists(SOLVER_ALPHABET, maxlen, illegal_leaves=False)
     if tier == "thorough":
         small = [SOLVER_ALPHABET[i] for i in (0, 3, 4, 6, 7, 8, 11, 12)]
@@ -786,36 +1019,39 @@ def run(tier):
     nsenum = len(slists)
     for _ in range(nrand):
         slists.append(random_list(rnd, SOLVER_ALPHABET, SOLVER_EXTRA, 60, allow_illegal=False))
-    srows, sseen, ssel = [], set(), []
     for idx, toks in enumerate(slists):
-        tr, problems = I.run_solver(toks)
-        if len(toks) <= 4 or idx >= nsenum or rsel.random() < frac:
-            ssel.append(toks)
-            srows.append("([%s], %s)" % ("; ".join(coq_solver_cmd(t) for t in toks), coq_trace(tr)))
-        chk.count(("solver", tuple(toks)))
-        if problems and len(sseen) < 40:
-            key = "solver:%s" % tok_str(toks)
-            sseen.add(key)
-            chk.violation({"kind": "history", "target": "solver", "history": toks, "what": problems[0],
-                           "all_problems": problems[:5], "oracle": "RefStack (SMT-LIB assertion stack) + truth table",
-                           "repro": solver_repro(toks)}, key=key)
-    chk.sample({"kind": "solver", "commands": tok_str(slists[nsenum - 1]), "trace": str(I.run_solver(slists[nsenum - 1])[0])})
-    chk.sample({"kind": "solver (random)", "commands": tok_str(slists[-1]), "trace": str(I.run_solver(slists[-1])[0][-3:])})
+        if stop():
+            break
+        do_schedule([(0, t) for t in toks], len(toks) <= 4 or idx >= nsenum or rsel.random() < frac, "single")
+    ulists = [l for l in enumerate_lists(UNKNOWN_ALPHABET, maxlen, illegal_leaves=False) if any(t[0].endswith("_unk") for t in l)]
+    ulists.sort(key=len)
+    for toks in ulists:
+        if stop():
+            break
+        do_schedule([(0, t) for t in toks], True, "unknown_family")
+    stopped_early = stop()
+    if not stopped_early:
+        chk.sample({"kind": "solver", "commands": tok_str(slists[nsenum - 1]), "trace": str(I.run_solver(slists[nsenum - 1])[1])})
+        chk.sample({"kind": "solvers (interleaved)", "schedule": sched_str(multi[-1]), "traces": str(I.run_multi(multi[-1])[1])})
     sfiles = write_cases(chk, "solver", srows, "list (scmd nat) * list (result (tst nat))", SOLVER_TAIL)
     meta.update(dict((p, ("solver", ssel[i * 500:(i + 1) * 500])) for i, p in enumerate(sfiles)))
-    chk.note("solver: %d command lists (%d enumerated)" % (len(slists), nsenum))
+    chk.note("solver: %s%s" % (counts, " (stopped early: enough violations)" if stopped_early else ""))
 
     cov_s = lists[:2500] + lists[nenum - 300:nenum] + lists[-300:]
-    cov_t = slists[:2500] + slists[nsenum - 300:nsenum] + slists[-300:]
-    chk.cov["uncovered_lines_of_modelled_functions"] = line_coverage(I, cov_s, cov_t)
-    chk.cov["uncovered_lines_note"] = ("expected: the non-incremental and push-not-implemented branches of Solver.is_sat, the "
-                                       "the unknown-result handler of solve, the `mgr is None` default and the "
+    cov_t = slists[:2500] + slists[nsenum - 300:nsenum] + slists[-300:] + ulists[-300:]
+    chk.cov["uncovered_lines_of_modelled_functions"] = {} if stopped_early else line_coverage(I, cov_s, cov_t)
+    chk.cov["uncovered_lines_note"] = ("expected: the non-incremental and push-not-implemented branches of Solver.is_sat, "
+                                       "the `mgr is None` default and the "
                                        "return without optimizations (the harness passes mgr and return_optimizations=True)")
     # ---------------- model side ------------------------------------------------------
     corr_bad = []
+    chk.last_input = {"family": "model side (coqc on the case files)"}
     if os.path.exists(os.path.join(lib.COQ, "models", "TrackSolver.vo")) and os.path.exists(os.path.join(lib.COQ, "models", "Script.vo")):
-        res = lib.run_case_files(files + sfiles)
-        for p in files + sfiles:
+        todo = files + sfiles
+        if stopped_early:
+            todo = todo[:8]             # enough is known already: a token run of the model side only
+        res = lib.run_case_files(todo)
+        for p in todo:
             rc, out = res[p]
             mm = lib.parse_nat_list(out) if rc == 0 else None
             if mm is None:
@@ -823,27 +1059,40 @@ def run(tier):
             else:
                 kind, data = meta[p]
                 for i in mm[:3]:
-                    corr_bad.append({"file": p, "kind": kind, "index": i, "commands": tok_str(data[i]), "tokens": data[i]})
+                    if len(corr_bad) >= 4 * chk.max_violations:
+                        break
+                    if kind == "solver":
+                        sched, jj = data[i]
+                        corr_bad.append({"file": p, "kind": kind, "index": i, "solver_instance": jj, "schedule": sched_str(sched)})
+                    else:
+                        corr_bad.append({"file": p, "kind": kind, "index": i, "commands": tok_str(data[i]), "tokens": data[i]})
     else:
         corr_bad.append({"error": "the model files do not compile"})
-    chk.cov["correspondence"] = {"script_lists_model_side": len(sel), "solver_lists_model_side": len(ssel),
+    chk.cov["correspondence"] = {"script_lists_model_side": len(sel), "solver_traces_model_side": len(ssel),
                                  "script_lists": len(lists), "script_enumerated_up_to": maxlen, "script_legal": nlegal,
-                                 "solver_lists": len(slists), "solver_enumerated_up_to": maxlen,
+                                 "solver_histories": counts, "solver_enumerated_up_to": maxlen,
+                                 "multi_instance": "2 instances, every interleaving up to length %d over %d commands per instance; "
+                                                   "random: 2-3 instances, histories up to 20 commands each; a new instance after/next "
+                                                   "to a dirty one" % (5 if tier == "quick" else 6, len(MULTI_ALPHABET)),
                                  "also_enumerated": "length 6 over 8-symbol sub-alphabets" if tier == "thorough" else None,
                                  "case_files": len(files) + len(sfiles), "disagreements": len(corr_bad),
+                                 "raw_state_anomalies": len(anomalies), "stopped_early": stopped_early,
                                  "compared": "scripts: result of get_last_formula(return_optimizations=True) "
                                              "(assertion list, goals with soft clauses and weights, or exception class) and of "
                                              "get_strict_formula; solver: (_assertion_stack, _backtrack_points, pending_pop) "
-                                             "after every step"}
-    chk.note("correspondence: %d case files, %d disagreements" % (len(files) + len(sfiles), len(corr_bad)))
+                                             "of each instance after every step of that instance (the model is per instance)"}
+    chk.note("correspondence: %d case files, %d disagreements, %d raw-state anomalies"
+             % (len(files) + len(sfiles), len(corr_bad), len(anomalies)))
 
-    if (not ok or corr_bad) and not chk.violations:
+    if (not ok or corr_bad or anomalies) and not chk.violations:
         what = []
         if not ok:
             what.append("proof obligations no longer check: " + lib.proof_failure_summary(chk))
         if corr_bad:
             what.append("correspondence model<->implementation differs (no property violation found on these inputs "
                         "by the oracle): %s" % corr_bad[:3])
+        if anomalies:
+            what.append("raw solver state outside the model (no wrong `assertions` observed): %s" % anomalies[:3])
         chk.violation({"kind": "obligation", "theorem_or_correspondence": what}, found_input=False)
     return chk.finish(TRUSTED, ASSUMPTIONS, RULE)
 
@@ -854,12 +1103,16 @@ def replay(path):
     if r.get("kind") != "history":
         return run("quick")
     I = Impl()
-    toks = [tuple(t) for t in r["history"]]
     if r.get("target") == "solver":
-        tr, problems = I.run_solver(toks)
-        print("trace:", tr)
+        h = r["history"]
+        multi = bool(h) and all(len(x) == 2 and isinstance(x[1], list) for x in h)
+        sched = [(int(x[0]), tuple(x[1])) for x in h] if multi else [(0, tuple(t)) for t in h]
+        cmds, traces, problems, anom = I.run_multi(sched, observe_all=bool(r.get("observe_all")))
+        print("traces:", traces)
         print("problems:", problems)
+        print("raw-state anomalies:", anom)
         return 1 if problems else 0
+    toks = [tuple(t) for t in r["history"]]
     last, strict = I.last_formula(toks), I.strict_formula(toks)
     legal, ra, rg, fresh, abr = ref_script(toks)
     print("get_last_formula ->", last)
